@@ -294,10 +294,37 @@ def worst_mul_pairs(r, n, emin, emax):
         b = (f, lb) if fp.is_valid(f, lb) else (f, 0.0)
         yield a, b
 
+def near_pow2_pairs(r, n, emin, emax):
+    """BOTH operands a few ulps above a power of two with a low word just inside the half-ulp limit (either sign): the
+    relative weight of the lo*lo term and of every rounding error is largest there (DWTimesDW3 is sharp to within ~1u^2)"""
+    def one():
+        e = r.rng(emin, emax - 1)
+        h = math.ldexp(1.0 + r.rng(0, 12) * 2.0 ** -52, e)
+        half = fp.rn(fp.ulp(h) / 2)
+        l = math.nextafter(half, 0.0)
+        for _k in range(r.below(10)):
+            l = math.nextafter(l, 0.0)
+        l *= r.choice([1, 1, -1])
+        x = (h, l) if fp.is_valid(h, l) else (h, 0.0)
+        sg = r.choice([1.0, -1.0])
+        return (x[0] * sg, x[1] * sg)
+    for _ in range(n):
+        yield one(), one()
+    # the whole corner grid (deterministic up to the binades and signs): high words 1 + j ulp, low words half an ulp minus 1..10 units,
+    # low word on the same side as the high word — a mis-signed lo*lo term reaches 6u^2 on 0.25% of this grid and nowhere else
+    e1, e2, s1, s2 = r.rng(emin, emax - 1), r.rng(emin, emax - 1), r.choice([1.0, -1.0]), r.choice([1.0, -1.0])
+    for j1 in range(0, 9):
+        for j2 in range(0, 9):
+            for k1 in range(1, 11):
+                for k2 in range(1, 11):
+                    a = (math.ldexp(1.0 + j1 * 2.0 ** -52, e1) * s1, math.ldexp(2.0 ** -53 - k1 * 2.0 ** -106, e1) * s1)
+                    b = (math.ldexp(1.0 + j2 * 2.0 ** -52, e2) * s2, math.ldexp(2.0 ** -53 - k2 * 2.0 ** -106, e2) * s2)
+                    yield a, b
+
 def gen_C04(r, n):
     c = Cases()
     import itertools
-    for a, b in itertools.chain(arith_pairs(r, n, -450, 450), short_pairs(r, n // 2, -300, 300), worst_mul_pairs(r, n, -300, 300)):
+    for a, b in itertools.chain(arith_pairs(r, n, -450, 450), short_pairs(r, n // 2, -300, 300), worst_mul_pairs(r, n, -300, 300), near_pow2_pairs(r, n // 2, -200, 200)):
         c.add('%s %s %s' % (TT('Mul'), w2(a), w2(b)), kind='tt')
         c.add('%s %s %s' % (asgname('Mul', 'rTwoFloat'), w2(a), w2(b)), kind='tt')
         f = b[0] if b[0] != 0 or r.below(2) else 1.5
@@ -1169,12 +1196,15 @@ def gen_C10(r, n):
         gid += 1
         c.add('tr.FloatConst.%s' % k_, group=(gid, 'trait', 'FloatConst::' + k_), role='form', impl_only=True)
         c.add('consts.%s' % k_, group=(gid, 'trait', 'FloatConst::' + k_), role='form')
-    fixed = [((1.7976931348623157e308, 0.0), (-3 * 2.0 ** 970, 0.0)), ((1.7976931348623157e308, 0.0), (3 * 2.0 ** 970, 0.0))]     # |hi| = f64::MAX: spurious overflow inside 2Sum (known finding)
+    MAXF = 1.7976931348623157e308
+    fixed = [((MAXF, 0.0), (-3 * 2.0 ** 970, 0.0)), ((MAXF, 0.0), (3 * 2.0 ** 970, 0.0)),     # |hi| = f64::MAX: spurious overflow inside 2Sum (known finding)
+             ((-3 * 2.0 ** 970, 0.0), (MAXF, 0.0)), ((3 * 2.0 ** 970, 0.0), (-MAXF, 0.0)),      # mirrored: the f64 operand of the mixed forms is MAX
+             ((7 * 2.0 ** 970, 0.0), (-MAXF, 0.0)), ((-MAXF, 0.0), (7 * 2.0 ** 970, 0.0))]
     for it in range(n + len(fixed)):
         a, b = fixed[it - n] if it >= n else (operand(), operand())
         if it < n and r.below(5) == 0:
             b = cancel_partner(r, a) if fp.is_valid(*a) else b
-        f = r.choice([b[0], fp.any_f64(r), float(r.rng(-4, 4))])
+        f = b[0] if it >= n else r.choice([b[0], fp.any_f64(r), float(r.rng(-4, 4))])
         gid += 1
         for tr in ('Add', 'Sub', 'Mul', 'Div', 'Rem'):
             # 4 reference/value forms x 3 pairings, plus compound assignment
